@@ -59,7 +59,7 @@ theorem fireTimers_mid (c : C) (r : List Task) (ph : Bool) (hi : Mid c r ph) : M
   have hsplit := nRetry_split c.timers c.now
   have hsub : ∀ t ∈ c.timers.filter (fun t => decide (¬ t.1 ≤ c.now)), t ∈ c.timers := fun t ht => (List.mem_filter.mp ht).1
   have h1 : Mid { c with timers := c.timers.filter (fun t => decide (¬ t.1 ≤ c.now)) } r ph := by
-    obtain ⟨notDead, a1, a2, a3, a4, a5, a6, a7, a8, a9, a10, a11, a13, a14, a15, a16, s1, c1, c2, c3, c4, c5, c6, c7, c8, c9, c10, g1, g3, t1⟩ := hi
+    obtain ⟨notDead, a1, a2, a3, a4, a5, a6, a7, a8, a9, a10, a11, a13, a14, a15, a16, s1, c1, c2, c3, c4, c5, c6, c7, c8, c9, c10, g1, g3, h1, t1⟩ := hi
     constructor
     all_goals mid_auto3
   have h2 : Mid ((c.timers.filter (fun t => decide (t.1 ≤ c.now))).foldl fireOne
@@ -263,7 +263,7 @@ theorem reap_mid (c : C) (hi : Mid c [] true) : Mid (reap c) [] true := by
   show Mid { c with conns := c.conns.map (reapRec c),
                     trace := c.trace ++ (c.conns.filter (dyingP c)).map (fun r => Ev.connClosed r.sock) } [] true
   generalize reapRec c = g at *
-  obtain ⟨notDead, a1, a2, a3, a4, a5, a6, a7, a8, a9, a10, a11, a13, a14, a15, a16, s1, c1, c2, c3, c4, c5, c6, c7, c8, c9, c10, g1, g3, t1⟩ := hi
+  obtain ⟨notDead, a1, a2, a3, a4, a5, a6, a7, a8, a9, a10, a11, a13, a14, a15, a16, s1, c1, c2, c3, c4, c5, c6, c7, c8, c9, c10, g1, g3, h1, t1⟩ := hi
   constructor
   all_goals (first | assumption | grind [attempting, held, Task.plain, Task.holds, kill] | skip)
 
@@ -277,7 +277,7 @@ def Bnd (c : C) : Prop := Mid c [] true
 theorem iter_bnd (c : C) (active : List Src) (hi : Bnd c) : Bnd (iter c active) := by
   unfold Bnd at hi ⊢
   have h0 : Mid { c with horizon := c.nsock } [] false := by
-    obtain ⟨notDead, a1, a2, a3, a4, a5, a6, a7, a8, a9, a10, a11, a13, a14, a15, a16, s1, c1, c2, c3, c4, c5, c6, c7, c8, c9, c10, g1, g3, t1⟩ := hi
+    obtain ⟨notDead, a1, a2, a3, a4, a5, a6, a7, a8, a9, a10, a11, a13, a14, a15, a16, s1, c1, c2, c3, c4, c5, c6, c7, c8, c9, c10, g1, g3, h1, t1⟩ := hi
     constructor
     all_goals mid_auto3
   have h1 := dispatch_fold_mid active _ h0
@@ -286,14 +286,14 @@ theorem iter_bnd (c : C) (active : List Src) (hi : Bnd c) : Bnd (iter c active) 
   generalize List.foldl (fun (c : C) s => if c.dead then c else dispatch c s) _ active = c1 at h1 ⊢
   rw [if_neg (by rw [h1.notDead]; exact Bool.false_ne_true)]
   have h2 : Mid { c1 with pending := [], batch := c1.pending } c1.pending true := by
-    obtain ⟨notDead, a1, a2, a3, a4, a5, a6, a7, a8, a9, a10, a11, a13, a14, a15, a16, s1, c1', c2, c3, c4, c5, c6, c7, c8, c9, c10, g1, g3, t1⟩ := h1
+    obtain ⟨notDead, a1, a2, a3, a4, a5, a6, a7, a8, a9, a10, a11, a13, a14, a15, a16, s1, c1', c2, c3, c4, c5, c6, c7, c8, c9, c10, g1, g3, h1, t1⟩ := h1
     constructor
     all_goals mid_auto3
   have h3 := task_fold_mid c1.pending _ h2
   generalize List.foldl (fun (c : C) t => if c.dead then c else runTask c t) _ c1.pending = c2 at h3 ⊢
   rw [if_neg (by rw [h3.notDead]; exact Bool.false_ne_true)]
   have h4 : Mid { c2 with batch := [] } [] true := by
-    obtain ⟨notDead, a1, a2, a3, a4, a5, a6, a7, a8, a9, a10, a11, a13, a14, a15, a16, s1, c1', c2', c3, c4, c5, c6, c7, c8, c9, c10, g1, g3, t1⟩ := h3
+    obtain ⟨notDead, a1, a2, a3, a4, a5, a6, a7, a8, a9, a10, a11, a13, a14, a15, a16, s1, c1', c2', c3, c4, c5, c6, c7, c8, c9, c10, g1, g3, h1, t1⟩ := h3
     constructor
     all_goals mid_auto3
   rw [reapConnector_id h4, if_neg (by rw [h4.notDead]; exact Bool.false_ne_true)]
